@@ -481,9 +481,14 @@ func (p *Parser) PrefixExp(t *token.Token) (ast.ExpNode, *token.Token) {
 	var exp ast.ExpNode
 	switch t.Type {
 	case token.SgOpenBkt:
+		openTok := t
 		exp, t = p.Exp(p.Scan())
-		if f, ok := exp.(ast.FunctionCall); ok {
-			exp = f.InBrackets()
+		switch e := exp.(type) {
+		case ast.FunctionCall:
+			exp = e.InBrackets()
+		case ast.Etc:
+			// (...) is a single value
+			exp = ast.NewUnOp(openTok, ops.OpId, e)
 		}
 		expectType(t, token.SgCloseBkt, "')'")
 	case token.IDENT:
